@@ -96,6 +96,15 @@ Section Refine.
     eapply reaches_step; [apply M_heartbeat; eassumption|reflexivity|reflexivity].
   Qed.
 
+  Lemma reaches_snapshot : forall s id m,
+    In m (msgs s) -> m_type m = MsgSnap -> m_to m = id -> m_term m = n_term (nodes s id) ->
+    n_role (nodes s id) = Follower ->
+    exists s', reaches s id (fst (handle_snapshot id m (nodes s id))) (snd (handle_snapshot id m (nodes s id))) s'.
+  Proof.
+    intros s id m Hm Hty Hto Htm Hr. eexists.
+    eapply reaches_step; [apply M_snapshot; eassumption|reflexivity|reflexivity].
+  Qed.
+
   (* after a preliminary step (demote / setlead) that keeps term and makes the node a follower *)
   Lemma reaches_pre_then : forall s id n1 s1 (f : nstate -> nstate * list msg),
     reaches s id n1 [] s1 ->
@@ -174,6 +183,20 @@ Section Refine.
       + cbn [fst snd]. exists s. apply reaches_refl.
     - (* MsgHeartbeatResp *)
       cbn [fst snd]. exists s. apply reaches_refl.
+    - (* MsgSnap *)
+      destruct (n_role n) eqn:Er.
+      + assert (R1 : reaches s id (set_lead (Some (m_from m)) n) [] (set_node s id (set_lead (Some (m_from m)) n))).
+        { eapply reaches_step; [apply M_setlead|reflexivity|cbn; rewrite app_nil_r; reflexivity]. }
+        apply (reaches_pre_then s id _ _ (handle_snapshot id m) R1).
+        pose proof (proj1 (proj2 R1)) as Hn1.
+        apply reaches_snapshot; try assumption; rewrite Hn1; cbn [set_lead n_term n_role]; assumption.
+      + assert (R1 : reaches s id (become_follower id (n_term n) (Some (m_from m)) n) []
+                      (set_node s id (become_follower id (n_term n) (Some (m_from m)) n))).
+        { eapply reaches_step; [apply M_demote|reflexivity|cbn; rewrite app_nil_r; reflexivity]. }
+        apply (reaches_pre_then s id _ _ (handle_snapshot id m) R1).
+        pose proof (proj1 (proj2 R1)) as Hn1.
+        apply reaches_snapshot; try assumption; rewrite Hn1; cbn [become_follower n_term n_role]; try assumption; reflexivity.
+      + cbn [fst snd]. exists s. apply reaches_refl.
   Qed.
 
   (* ---------------------------------------------------------------- handle *)
@@ -200,7 +223,7 @@ Section Refine.
       destruct (Hev m eq_refl) as [Hm Hto]. unfold step_msg. fold n.
       destruct (n_term n <? m_term m) eqn:E1.
       + apply Nat.ltb_lt in E1.
-        set (lead := match m_type m with MsgApp | MsgHeartbeat => Some (m_from m) | _ => None end).
+        set (lead := match m_type m with MsgApp | MsgHeartbeat | MsgSnap => Some (m_from m) | _ => None end).
         set (n1 := become_follower id (m_term m) lead n).
         assert (R1 : reaches s id n1 [] (set_node s id n1)).
         { eapply reaches_step; [apply M_bump; exact E1|reflexivity|cbn; rewrite app_nil_r; reflexivity]. }
